@@ -422,8 +422,11 @@ class Table(Vector):
 					)
 				
 				# Replace the column at validated index
+				# (store a snapshot: the table must not share the donor vector)
 				if not isinstance(value, Vector):
 					value = Vector(value)
+				else:
+					value = value.copy()
 				
 				if self._underlying and len(value) != self._length:
 					raise ValueError(
@@ -444,8 +447,11 @@ class Table(Vector):
 			col_idx = self._column_map.get(attr) or self._column_map.get(attr.lower())
 			if col_idx is not None:
 				# Replace the column in _underlying
+				# (store a snapshot: the table must not share the donor vector)
 				if not isinstance(value, Vector):
 					value = Vector(value)
+				else:
+					value = value.copy()
 				
 				# Validate length
 				if self._underlying and len(value) != self._length:
